@@ -683,6 +683,9 @@ class Value:
 
 @functools.total_ordering
 class ValueBoolean(Value):
+    # TRUE and FALSE are shared by all interpreters: they take no doc string
+    info = property(lambda self: "", lambda self, value: None)
+
     def __init__(self, value):
         self.value = value
 
@@ -1305,6 +1308,9 @@ class ValueNode(Value):
 
 @functools.total_ordering
 class ValueNull(Value):
+    # the one NULL is shared by all interpreters: it takes no doc string
+    info = property(lambda self: "", lambda self, value: None)
+
     def __init__(self):
         self.value = None
 
